@@ -60,7 +60,10 @@ def t_C05_Bindings():
     for nm, full in (("vi_mode", "filters.app.vi_mode"), ("emacs_mode", "filters.app.emacs_mode"),
                      ("buffer_has_focus", "filters.app.buffer_has_focus"),
                      ("in_quoted_insert", "key_binding.bindings.basic.in_quoted_insert"),
-                     ("is_searching", "filters.app.is_searching")):
+                     ("is_searching", "filters.app.is_searching"),
+                     ("vi_navigation_mode", "filters.app.vi_navigation_mode"),
+                     ("vi_selection_mode", "filters.app.vi_selection_mode"),
+                     ("vi_waiting_for_text_object_mode", "filters.app.vi_waiting_for_text_object_mode")):
         body += "Definition a_%s : Z := %d.\n" % (nm, uniq_atom(full))
     body += "Definition h_back_to_navigation : Z := %d.\n" % uniq_handler("load_vi_bindings.<locals>._back_to_navigation")
     body += "Definition h_accept_search : Z := %d.\n" % uniq_handler("bindings.search.accept_search")
